@@ -73,8 +73,25 @@ pub fn kb_alg_for(rng: &mut Rng, key: &str) -> Option<String> {
     }
 }
 
+/// Now and then a claim the size of a scanned document: SD-JWTs beyond 64 KiB (16-bit
+/// lengths, header-size limits of transports, fixed buffers).
+pub fn maybe_big_claim(rng: &mut Rng, claims: &mut Value) {
+    if !rng.chance(1, 40) {
+        return;
+    }
+    let n = *rng.pick(&[50_000usize, 66_000, 100_000, 140_000]);
+    let mut s = String::with_capacity(n);
+    while s.len() < n {
+        s.push_str("iVBORw0KGgoAAAANSUhEUgAAAAEAAAABCAYAAAAfFcSJAAAADUlEQVR42mNk");
+    }
+    if let Some(o) = claims.as_object_mut() {
+        o.insert("portrait".into(), Value::String(s));
+    }
+}
+
 fn honest_cred(rng: &mut Rng, issuer: usize, iss: &str, now: i64, cfg: &GenCfg, hk: Option<String>) -> CredSpec {
-    let claims = gen::gen_claims(rng, cfg, iss, now);
+    let mut claims = gen::gen_claims(rng, cfg, iss, now);
+    maybe_big_claim(rng, &mut claims);
     let strat = gen::gen_strategy(rng, &claims);
     CredSpec::Honest { issuer, claims, strat, holder_key: hk, decoys: rng.bool(), fmt: rand_fmt(rng) }
 }
@@ -107,7 +124,7 @@ fn rand_char(rng: &mut Rng) -> char {
     *rng.pick(&['A', 'Q', 'a', 'z', '0', '9', '-', '_', '=', '+', '/', '.', '~', ' ', '\n', 'é'])
 }
 
-fn rand_char_op(rng: &mut Rng) -> CharOp {
+pub fn rand_char_op(rng: &mut Rng) -> CharOp {
     match rng.usize(3) {
         0 => CharOp::Subst(rand_char(rng)),
         1 => CharOp::Delete,
@@ -185,7 +202,8 @@ pub fn gen_c03(rng: &mut Rng, tier: Tier) -> MsgScn {
     let issuers = issuers(rng, 2);
     let now = clock_base(rng);
     let cfg = GenCfg::draw(rng);
-    let claims = gen::gen_claims(rng, &cfg, &issuers[0].iss, now);
+    let mut claims = gen::gen_claims(rng, &cfg, &issuers[0].iss, now);
+    maybe_big_claim(rng, &mut claims);
     let strat = match rng.usize(6) {
         0 => gen::gen_strategy(rng, &claims),
         1 => Strat::Top,
@@ -531,7 +549,8 @@ pub fn gen_c04(rng: &mut Rng, tier: Tier) -> MsgScn {
         _ => (hk0, hk2),
     };
     let mut mk = |rng: &mut Rng, issuer: usize, hk: Option<String>| {
-        let claims = gen::gen_claims(rng, &cfg, &iss[issuer].iss, now);
+        let mut claims = gen::gen_claims(rng, &cfg, &iss[issuer].iss, now);
+        maybe_big_claim(rng, &mut claims);
         // AllLevels / TopLevel so that there are disclosures to add, drop and reorder
         // mostly AllLevels so that there are disclosures to add, drop and reorder; sometimes
         // NoSDClaims: a key-bound credential with no disclosure at all
